@@ -11,9 +11,16 @@ THEOREMS = ["OQuPyVerif.Props.C05.covariance", "OQuPyVerif.Props.C05.rot_mul",
 RES_TOL = 1e-18          # squared moduli
 
 
-def structured_unitary(rng, d):
-    kind = rng.choice(["haar", "perm", "hadamard", "phase", "block", "real-rot"])
+def structured_unitary(rng, d, kind=None):
+    kind = kind or rng.choice(["haar", "perm", "hadamard", "phase", "block", "real-rot", "near-identity"])
     from . import cases
+    if kind == "near-identity":
+        # a basis that differs from the eigenbasis only slightly: exp(-i theta G), theta small but
+        # far above rounding (the off-diagonal part of the operator must not be dropped)
+        from scipy.linalg import expm
+        g = cases.rand_herm(rng, d, 1.0)
+        theta = 10 ** rng.uniform(-5, -2)
+        return expm(-1j * theta * g), kind
     if kind == "haar":
         return cases.rand_unitary(rng, d), kind
     if kind == "perm":
@@ -53,10 +60,10 @@ def eig_multiset(rng, d):
     return ev, kind
 
 
-def gen_coupling(rng):
+def gen_coupling(rng, vkind=None):
     d = rng.choice([2, 3, 4, 5])
     ev, ek = eig_multiset(rng, d)
-    v, vk = structured_unitary(rng, d)
+    v, vk = structured_unitary(rng, d, vkind)
     o = v @ np.diag(np.array(ev, dtype=complex)) @ v.conj().T
     o = (o + o.conj().T) / 2
     return d, ev, ek, vk, o
@@ -71,8 +78,8 @@ def corr_diag(res, tier, rng):
     from . import tensors
     n = 60 if tier == "quick" else 400
     lines, meta = [], []
-    for _ in range(n):
-        d, ev, ek, vk, o = gen_coupling(rng)
+    for j in range(n):
+        d, ev, ek, vk, o = gen_coupling(rng, "near-identity" if j < 4 else None)
         key = "%s/%s/d=%d" % (ek, vk, d)
         res.count("bath:" + key)
         try:
@@ -171,7 +178,7 @@ def search(res):
     rng = random.Random(res.seed + 505)
     # (a) every Hermitian coupling operator is accepted, transform unitary, reproduces the operator
     for i in range(300):
-        d, ev, ek, vk, o = gen_coupling(rng)
+        d, ev, ek, vk, o = gen_coupling(rng, "near-identity" if i < 12 else None)
         try:
             b = bath_of(o)
         except AssertionError as e:
